@@ -12,7 +12,7 @@ pub fn c15(ctx: &Ctx, subj: &dyn DynSubject, ty: &Ty, rep: &mut Report) {
         let mut ent = Ent::new(ent);
         self_check(subj, v)?;
         let (bytes, _) = ser_bytes(subj, v)?;
-        let enc = model_enc(ctx, subj, ty, v)?;
+        let enc = model_enc_fit(ctx, subj, ty, v, bytes.len(), log)?;
         if enc.tags.is_empty() {
             return Ok(());
         }
